@@ -34,6 +34,10 @@ def sweep (f : Int → Int × Int) (lo hi : Int) : String := Id.run do
     out := out ++ toString p.2
   return out
 
+def pairsOf : List Int → List (Int × Int)
+  | a :: b :: rest => (a, b) :: pairsOf rest
+  | _ => []
+
 def step (t : List String) : String :=
   match t with
   | ["fwd", c, j] => match fwd? c, j.toInt? with
@@ -55,6 +59,16 @@ def step (t : List String) : String :=
             | _ => []
           " ".intercalate (go l)
       | _, _ => "bad-op"
+  | "namekeys" :: nm => match parseAll? parseInt? nm with
+      | some l =>
+          " ".intercalate ((pairsOf l).map fun p =>
+            let k := nameKey p.1 p.2; s!"{k.1} {k.2.1} {k.2.2.1} {k.2.2.2} {nameWords k.1}")
+      | _ => "bad-op"
+  | "group" :: nm => match parseAll? parseInt? nm with
+      | some l =>
+          " ".intercalate ((groupByKey (pairsOf l)).map fun g =>
+            s!"{g.1.1} {g.1.2} {g.2.length} " ++ " ".intercalate (g.2.map toString))
+      | _ => "bad-op"
   | ["valid", n, m] => match n.toInt?, m.toInt? with
       | some n, some m => if Valid n m then "1" else "0"
       | _, _ => "bad-op"
